@@ -1118,6 +1118,13 @@ class scope_extract:
             self_value = self.__dict__.get(key, None)
             if self_value is None:
                 self.__dict__[key] = other_value
+            elif other_value is None and (
+                isinstance(self_value, scope_extract_list)
+                or getattr(self_value, "__phil_join__", None) is not None
+            ):
+                # the placeholder of a disabled object in a later block of the same scope
+                # must not disturb what the earlier block supplied
+                continue
             elif isinstance(self_value, scope_extract_list):
                 assert isinstance(other_value, scope_extract_list)
                 for item in other_value:
